@@ -2,10 +2,11 @@
  (a) allocation counter: init_mms, masa_printid, ~MasterMS keep 'live objects == registered handles' (no leak, no double delete),
  (b) the base constructor initialises every bookkeeping member (num_vars, num_vec, both index vectors),
  (c) every vararr[..] / vecarr[..] index is within size() in all store functions (explicit obligation in V_at),
- (d) C array wrappers: masa_get_array copies exactly length elements, masa_set_array reads exactly *n.
+ (d) C array wrappers: masa_get_array copies exactly length elements, masa_set_array reads exactly *n,
+ (e) BOUNDED: operator[] on the vector parameters inside the member functions of the classes that own them stays within size() (lengths 0..8).
 Not covered: anything only visible in compiled C++ (use-after-free inside libstdc++ objects, destructor order, sanitizer findings)."""
 import os, time, json
-import apicheck, regcheck, p_c11
+import apicheck, regcheck, p_c11, p_c10
 from common import *
 
 def run(tier, seed):
@@ -36,16 +37,17 @@ def run(tier, seed):
     ares = apicheck.run_jobs(ajobs, abase, tier)
     a_dis, a_per, a_samples = apicheck.account(rep, ares, abase)
     n_dis = r_dis + s_dis + a_dis
+    v_per, v_bounded = p_c10.vector_index_check(rep, d, tier, only) if (not only or 'vidx' in only or 'radiation' in only or 'cp_normal' in only) else ([], [])
     trusted = regcheck.TRUSTED_REG + p_c11.TRUSTED + ['only the obligations (a)-(d) of DESIGN 4/C19 are claimed; sanitizer-level behaviour of the compiled C++ is out of reach of contracts on extracted C']
     cov = {'obligations': n_dis + len(rep.violations) + len(rep.undecided) + len(rep.known_hits), 'discharged': n_dis,
            'checker_cmd': rres[0][1].cmd if rres else 'n/a', 'trusted_base': trusted,
            'functions_under_contract': [j[0] for j, r in rres] + [j[0] for j, r in sres] + [j[0] for j, r in ares],
-           'functions_not_under_contract': rnot + snot, 'per_function': r_per + s_per + a_per, 'bounded': [],
+           'functions_not_under_contract': rnot + snot, 'per_function': r_per + s_per + a_per + v_per, 'bounded': v_bounded,
            'samples': (r_samples[:2] + a_samples[:1]) or [{'note': 'nothing discharged'}],
            'explanation': '(a) REG_WF contains ghost_live == number of handles; init_mms (all candidates but the kept one deleted, previous object of a re-used handle deleted), '
                           'masa_printid (allocates and deletes the whole catalogue) and ~MasterMS (every owned object deleted once; ms_delete requires the object to be alive: no double free) '
                           're-establish it; (b) store__ctor postcondition names num_vars, num_vec, vararr, vecarr; (c) the index assertion inside vararr_at/vecarr_at is an obligation '
-                          'of every store function; (d) masa_get_array / masa_set_array contracts.'}
+                          'of every store function; (d) masa_get_array / masa_set_array contracts; (e) see bounded.'}
     write_evidence('C19', tier, seed, 'proof', cov, trusted, time.time() - t0, len(rep.violations))
     print('C19: %d functions under contract, %d obligations discharged, %d violations, %d undecided (%.1fs)' % (
         len(rres) + len(sres) + len(ares), n_dis, len(rep.violations), len(rep.undecided), time.time() - t0))
